@@ -341,6 +341,89 @@ theorem implicit_output_one_bracket_rule (fl : Flags) (hs : flagsSafe .argfind f
     have hb : (bracketCount x == 1) = false := by simpa using h
     simp [hb] at ho
 
+/-! ## All rules at once: the decidable defect list of the driver -/
+
+/-- **`defects_rejected`**: if any entry of `defects` (the Boolean hypotheses of the rule theorems above, evaluated by the driver on
+    every case of stream R) is present, the call is rejected with a `SemanticError` — for all trees and all safe flag sets. -/
+theorem defects_rejected (fam : Family) (fl : Flags) (hs : flagsSafe fam fl = true) (kd : Bool) (ins : List Expr)
+    (outs : Option (List Expr)) (h : defects fam fl ins outs ≠ []) :
+    RejectedSemantic (parseOpTree .tree fam fl kd ins outs) := by
+  have hex : ∃ p ∈ defectTable fam fl ins outs, p.2 = true := by
+    cases hf : (defectTable fam fl ins outs).filter (·.2) with
+    | nil => simp [defects, hf] at h
+    | cons p ps =>
+      have : p ∈ (defectTable fam fl ins outs).filter (·.2) := by rw [hf]; simp
+      exact ⟨p, (List.mem_filter.mp this).1, (List.mem_filter.mp this).2⟩
+  obtain ⟨p, hp, hp2⟩ := hex
+  simp only [defectTable, List.mem_cons, List.not_mem_nil, or_false] at hp
+  rcases hp with rfl | rfl | rfl | rfl | rfl | rfl | rfl | rfl | rfl | rfl | rfl | rfl | rfl
+  · -- concat_not_allowed_rule
+    simp only [Bool.and_eq_true, Bool.not_eq_true'] at hp2
+    exact ⟨_, concat_not_allowed_rule .tree fam fl kd ins outs hp2.1 hp2.2, rfl⟩
+  · rcases concat_brackets_rule .tree fam fl kd ins outs hp2 with h1 | h1
+    · exact ⟨_, h1, rfl⟩
+    · exact ⟨_, h1, rfl⟩
+  · simp only [Bool.and_eq_true, Option.isNone_iff_eq_none, beq_iff_eq] at hp2
+    obtain ⟨h1, h2⟩ := hp2
+    subst h1
+    exact missing_output_rule fam fl hs kd ins h2
+  · exact input_count_rule fam fl hs kd ins outs (by simpa using hp2)
+  · cases outs with
+    | none => simp at hp2
+    | some o =>
+      simp only [Bool.and_eq_true, bne_iff_ne, ne_eq] at hp2
+      exact output_count_rule fam hp2.1 fl hs kd ins o hp2.2
+  · simp only [Bool.and_eq_true, Bool.or_eq_true, beq_iff_eq, List.any_eq_true, usesBrackets, Bool.not_eq_true'] at hp2
+    obtain ⟨hfam, x, hx, hbr⟩ := hp2
+    exact elementwise_no_bracket_rule fam hfam fl hs kd ins outs x hx hbr
+  · cases outs with
+    | none => simp at hp2
+    | some o =>
+      simp only [Bool.and_eq_true, Bool.or_eq_true, beq_iff_eq, List.any_eq_true, usesBrackets, Bool.not_eq_true'] at hp2
+      obtain ⟨hfam, x, hx, hbr⟩ := hp2
+      obtain ⟨j, hj, hjx⟩ := List.getElem_of_mem hx
+      refine scalar_output_no_bracket_rule fam ?_ fl hs kd ins o j x (by simp [hjx, hj]) hbr
+      rcases hfam with (((h1 | h1) | h1) | h1) | h1
+      · exact Or.inl h1
+      · exact Or.inr (Or.inl h1)
+      · exact Or.inr (Or.inr (Or.inl h1))
+      · exact Or.inr (Or.inr (Or.inr (Or.inl h1)))
+      · exact Or.inr (Or.inr (Or.inr (Or.inr h1)))
+  · split at hp2
+    · rename_i x xs y ys
+      exact update_output_brackets_rule fl hs kd x xs y ys (by simpa using hp2)
+    · cases hp2
+  · simp only [Bool.and_eq_true, Bool.not_eq_true', List.any_eq_true] at hp2
+    obtain ⟨⟨hm, hnb⟩, x, hx, hd⟩ := hp2
+    exact auto_mark_duplicate_rule fam fl hs kd ins outs hm hnb x hx hd
+  · cases outs with
+    | none => simp at hp2
+    | some o => exact output_duplicate_rule_semantic fam fl hs kd ins o hp2
+  · cases outs with
+    | none => simp at hp2
+    | some o =>
+      simp only [Bool.and_eq_true, Bool.not_eq_true'] at hp2
+      exact dot_bracket_rule fam fl hs kd ins o hp2.1.1 hp2.1.2 hp2.2
+  · split at hp2
+    · rename_i x y rest
+      simp only [Bool.and_eq_true, beq_iff_eq, bne_iff_ne, ne_eq] at hp2
+      exact implicit_output_unique_rule fl hs kd x y rest hp2.1 hp2.2
+    · cases hp2
+  · split at hp2
+    · rename_i x
+      simp only [Bool.and_eq_true, beq_iff_eq, bne_iff_ne, ne_eq, Bool.not_eq_true'] at hp2
+      exact implicit_output_one_bracket_rule fl hs kd x hp2.1.1 hp2.1.2 hp2.2
+    · cases hp2
+
+/-- The same for a description: with the flags of the family's wrapper, a description that parses to a call with a defect is
+    rejected by the `_parse_op` model (tree mode) with a `SemanticError`. -/
+theorem defects_rejected_family (fam : Family) (fl : Flags) (hfl : flagsOf fam = some fl) (kd : Bool) (ins : List Expr)
+    (outs : Option (List Expr)) (h : defects fam fl ins outs ≠ []) :
+    RejectedSemantic (parseOpTree .tree fam fl kd ins outs) := by
+  obtain ⟨fl', h1, h2⟩ := family_flags_safe fam
+  rw [hfl] at h1; cases h1
+  exact defects_rejected fam fl h2 kd ins outs h
+
 /-! ## Non-vacuity: every rule on a concrete tree, with the raise site the model reports -/
 
 /-- `elab_total` covers real flag rows: the reduce row exists and is safe. -/
